@@ -147,8 +147,9 @@ pub fn record_wm(seed: u64, thorough: bool, path: &str) -> Value {
             2 => if present.is_empty() { 0 } else { *rng.pick(&present) },
             _ => if rng.chance(9, 10) { (sigma - 1) as u64 } else { rng.below(sigma) as u64 },
         }).collect();
-        let ty = TYPES[o % 5];
-        let (wm, core) = match guarded(|| build(&vals, ty)) { Ok(Some(b)) => b, _ => { out.push(json!({"e": "def", "vals": vals, "type": ty, "built": "PANIC"})); continue; } };
+        // the item type rotates over the five source types; a type too narrow for the alphabet is replaced by the next wider one
+        let ty = match TYPES[o % 5] { "u8" if width > 8 => "u16", t => t };
+        let (wm, core) = match guarded(|| build(&vals, ty)) { Ok(Some(b)) => b, Ok(None) => panic!("TOOL-ERROR: item type {} cannot hold the alphabet of width {}", ty, width), Err(_) => { out.push(json!({"e": "def", "vals": vals, "type": ty, "built": "PANIC"})); continue; } };
         out.push(json!({"e": "def", "vals": vals, "type": ty, "built": "ok", "obs": [wm.len(), wm.width(), core.len(), core.width()]}));
         let d = out.lines.len();
         let nq = if thorough { 40 } else { 25 };
